@@ -209,7 +209,12 @@ def driver_rules(ctx, chk, drv):
     else:
         core = strip(T0)
         looks = [t for t in subterms(T0) if is_start_lookup(t)]
-        arith = [t for t in subterms(T0) if t[0] in ("bin", "binO", "un")]
+        # arithmetic applied to what the lookup returned - not arithmetic that went into building the map or the text
+        # the map came from (`String::with_capacity(len + 1)` inside the argument of the lookup is not index arithmetic)
+        inside = set()
+        for lk in looks:
+            inside |= {id(x) for x in subterms(lk)}
+        arith = [t for t in subterms(T0) if t[0] in ("bin", "binO", "un") and id(t) not in inside]
         if core[0] == "proj" and core[2] == ("f", map_i) and looks and not arith and \
                 strip(core[1]) == ("proj", ("proj", looks[0], ("down", 1)), ("f", 0)):
             chk.ok("C08.R5", "idx0", "idx := label_map[\"start\"].map")
